@@ -301,6 +301,8 @@ class DegreeOps(Family):
                 if not rational and len(P[0]) < 2:
                     P = [pt + [1.0] for pt in P]
                 out.append({"op": "elevate", "p": p, "t": t, "P": P, "rational": rational})
+                if i % 4 == 1:
+                    out[-1]["range"] = rng.choice([[2.0, 5.0], [-1.0, 1.0], [0.5, 4.5], [-3.0, -1.0]])
             else:
                 p = rng.randint(1, 8)
                 dim = rng.randint(2, 3)
@@ -309,22 +311,28 @@ class DegreeOps(Family):
                     P0 = [pt + [(p + 1) * rng.randint(1, 16) / 8.0] for pt in P0]
                 E = exact_elevation(gc.fr(P0), 1)
                 out.append({"op": "reduce", "p": p + 1, "t": -1, "P": [[float(x) for x in pt] for pt in E], "orig": P0, "rational": rational})
+                if i % 4 == 2:
+                    out[-1]["range"] = rng.choice([[2.0, 5.0], [-1.0, 1.0], [0.5, 4.5], [-3.0, -1.0]])
         return out
 
     def impl(self, c):
         def f():
             p = c["p"]
-            crv = NURBS.Curve() if c["rational"] else BSpline.Curve()
+            lo, hi = c.get("range") or (0.0, 1.0)
+            kw = {"normalize_kv": False} if c.get("range") else {}
+            crv = NURBS.Curve(**kw) if c["rational"] else BSpline.Curve(**kw)
             crv.degree = p
             if c["rational"]:
                 crv.ctrlptsw = [list(pt) for pt in c["P"]]
             else:
                 crv.ctrlpts = [list(pt) for pt in c["P"]]
-            crv.knotvector = [0.0] * (p + 1) + [1.0] * (p + 1)
+            crv.knotvector = [lo] * (p + 1) + [hi] * (p + 1)
             operations.degree_operations(crv, [c["t"]])
             pts = crv.ctrlptsw if c["rational"] else crv.ctrlpts
-            return {"degree": crv.degree, "P": [list(pt) for pt in pts], "kv": list(crv.knotvector),
-                    "evals": [list(crv.evaluate_single(x)) for x in XS]}
+            # "kv" is reported on [0, 1] (the model's and the oracle's frame); "range" = the ends the object reports
+            kvr = [float(k) for k in crv.knotvector]
+            return {"degree": crv.degree, "P": [list(pt) for pt in pts], "kv": [(k - lo) / (hi - lo) for k in kvr], "range": [kvr[0], kvr[-1]],
+                    "evals": [list(crv.evaluate_single(lo + (hi - lo) * x)) for x in XS]}
         return call(f)
 
     def coq(self, c, out):
@@ -348,6 +356,8 @@ class DegreeOps(Family):
             return "degree_operations-degree: degree %d after param %d on degree %d" % (o["degree"], t, p)
         if o["kv"] != [0.0] * (nd + 1) + [1.0] * (nd + 1):
             return "degree_operations-kv: %s" % o["kv"]
+        if c.get("range") and o.get("range") != list(c["range"]):
+            return "degree_operations-domain: a curve on the knot range %s (normalize_kv=False) has the range %s afterwards" % (c["range"], o.get("range"))
         E = exact_elevation(gc.fr(c["P"]), t) if t > 0 else gc.fr(c["orig"])
         if len(o["P"]) != nd + 1:
             return "degree_operations-shape: %d control points" % len(o["P"])
